@@ -62,6 +62,7 @@ func c02(c *Ctx) {
 	c02ConcurrentProbe(c)
 	c02DuplicateNodeIDProbe(c)
 	c02RestartFamily(c)
+	c02LateStableFamily(c)
 	c02Campaign(c)
 }
 
